@@ -149,6 +149,7 @@ class Opts(object):
         self.scaling = None              # callable(rng, spec, chan types) adding NI_Scale properties
         self.equal_shapes_p = 0.0        # chance that all channels share counts (index de-duplication)
         self.huge_p = 0.0                # chance per world of one very long channel chunk (block / buffer / cache size thresholds)
+        self.max_world_bytes = 6 * 2**20   # raw data of the segments that carry a long chunk (> 64 KiB), per world
         self.huge_classes = ['k64', 'm1']  # just over 2^16 values; 1.05-2.3 MiB; 'm16' = just over 2^24 bytes
         self.short_last_p = 0.0          # chance per eligible segment of a stated short final chunk ("less data than expected")
         self.common_names_p = 0.3        # chance per world that names come from a tiny fixed pool: files handled one after another
@@ -218,6 +219,7 @@ def gen_spec(rng, o):
     huge = rng.random() < o.huge_p
     huge_done = False
     big_emitted = False
+    world_bytes = 0
     run_left = 0
     run_at = None
     if o.long_run_p and rng.random() < o.long_run_p:
@@ -382,6 +384,10 @@ def gen_spec(rng, o):
                 if big_emitted:
                     chunks = 0
                 big_emitted = big_emitted or chunks > 0
+            if chunk_bytes > 2**16 and world_bytes + chunks * chunk_bytes > o.max_world_bytes:
+                # a long chunk that later segments inherit ("same as before", no metadata) is not repeated without bound
+                chunks = max(0, (o.max_world_bytes - world_bytes) // chunk_bytes) if chunk_bytes <= 2**23 else chunks
+            world_bytes += chunks * chunk_bytes
             if run_at is not None and not meta and chunk_bytes < 4096:
                 chunks = rng.choice([1, 1, 1, 1, 2, 3])      # streamed segments of unequal length
         seg['chunks'] = chunks
@@ -428,7 +434,8 @@ def gen_spec(rng, o):
         multi_str = lastseg['chunks'] > 1 and any(a[1] and a[2]['type'] == 'str' for a in active)
         if not multi_str:
             lastseg['next_offset'] = 'unknown'
-    if o.scaling is not None:
+    if o.scaling is not None and not huge_done:
+        # (value-by-value sensor scalings over a channel of 10^5-10^6 values would only be slow, not different)
         o.scaling(rng, spec, ctype)
     return spec
 
